@@ -120,6 +120,17 @@ def mk_bin(op, ty, a, b):
             return a
         if op in ("shl", "lshr", "mul", "udiv", "urem", "srem", "sdiv") and is_c(a) and a[2] == 0 and op not in ("mul",):
             return zero
+    if bits and bits > 1 and op == "sub" and is_c(a) and a[2] == (1 << bits) - 1 and not is_c(b):
+        return mk_bin("xor", ty, b, C(bits, -1))                          # -1 - z == ~z
+    if bits and bits > 1 and op == "udiv" and b[0] == "op" and b[1] == "sub" and is_c(b[3]) and b[3][2] == 0:
+        # x / (0 - y) with x >= 0 and y < 0 (assumed ranges): the unsigned quotient is minus the signed quotient x / y
+        rx, ry = _range(a), _range(b[4])
+        if rx is not None and ry is not None and rx[0] >= 0 and ry[1] < 0 and ry[0] > -(1 << (bits - 1)):
+            return mk_bin("sub", ty, C(bits, 0), mk_bin("sdiv", ty, a, b[4]))
+    if bits and bits > 1 and op == "xor" and is_c(b) and b[2] == (1 << bits) - 1 and a[0] == "op" and a[1] == "sub" and is_c(a[3]) and a[3][2] == 0:
+        return mk_bin("add", ty, a[4], C(bits, -1))                       # ~(0 - z) == z - 1
+    if bits and bits > 1 and op == "xor" and is_c(a) and a[2] == (1 << bits) - 1 and b[0] == "op" and b[1] == "sub" and is_c(b[3]) and b[3][2] == 0:
+        return mk_bin("add", ty, b[4], C(bits, -1))
     if bits and op in ("lshr", "udiv") and is_c(b) and a[0] == "op" and a[1] == "mul":
         k_ = (1 << b[2]) if (op == "lshr" and 0 < b[2] < bits) else (b[2] if op == "udiv" else 0)
         for c_, x_ in ((a[3], a[4]), (a[4], a[3])):
@@ -260,11 +271,14 @@ def _range(e, depth=0):
     if t == "cast":
         r = _range(e[4], depth + 1)
         if r is None:
+            if e[1] == "zext" and _bits(e[2]) and _bits(e[3]) and _bits(e[2]) < _bits(e[3]):
+                return (0, (1 << _bits(e[2])) - 1)
             return None
         if e[1] == "sext":
             return r
         if e[1] == "zext":
-            return r if r[0] >= 0 else None
+            b0 = _bits(e[2])
+            return r if r[0] >= 0 else ((0, (1 << b0) - 1) if b0 else None)     # a zero extension is non-negative whatever its operand
         if e[1] == "trunc":
             b = _bits(e[3])
             return r if b and -(1 << (b - 1)) <= r[0] and r[1] < (1 << (b - 1)) else None
